@@ -195,3 +195,30 @@ def validate(r, what=''):
     for c in r.chunks:
         if type(c) is not bytes:
             bad(f'body chunk is {type(c).__name__}, not bytes')
+
+
+class Hang(BaseException):
+    """Raised by the watchdog; a BaseException so that the framework's catch-all does not turn it into a 500 page."""
+
+
+def call_app_watchdog(app, env, seconds=10):
+    """call_app under a SIGALRM watchdog (main thread only). Returns the Result; r.escaped is a Hang instance if the request did not finish."""
+    import signal
+
+    def _alarm(signum, frame):
+        signal.alarm(1)          # re-arm: an exception that lands in a gc callback / __del__ is swallowed, the next one follows
+        raise Hang()
+    old = signal.signal(signal.SIGALRM, _alarm)
+    signal.alarm(seconds)
+    try:
+        try:
+            return call_app(app, env)
+        finally:
+            signal.alarm(0)
+            signal.signal(signal.SIGALRM, old)
+    except Hang as h:
+        r = Result()
+        r.calls, r.chunks, r.escaped, r.closed, r.env, r.iter_type = [], [], h, 0, env, None
+        r.status = r.headers = r.code = r.body = None
+        r.errors = ''
+        return r
